@@ -197,6 +197,23 @@ def _shortint_case(rng):
                 tunit='hours', coords=[lib.show_rat(x) for x in c], edges='none', vals=[lib.show_rat(x) for x in vals], nanq=False)
 
 
+def _bigunsigned_case(rng):
+    """an unsigned coordinate whose values lie in the upper half of its type's range (uint8 above 127, uint16 above 32767,
+    uint32 from 2**31): the signed type of the same width cannot hold them"""
+    cdt = rng.choice(['B', 'H', 'I'])
+    base, sp = {'B': (120, 20), 'H': (30000, 2500), 'I': (2 ** 31 - 5, 7)}[cdt]
+    c = [Fraction(base + sp * i) for i in range(rng.randint(3, 5))]       # straddles the half range
+    if rng.random() < 0.4:
+        c = c[::-1]
+    lo, hi = min(c), max(c)
+    vals = [rng.choice(c) for _ in range(2)] + [lo + Fraction(rng.randrange(1, 8 * int(hi - lo)), 8) for _ in range(rng.randint(2, 5))]
+    mids = set((a + b) / 2 for a, b in zip(c, c[1:]))
+    vals = [v for v in vals if v not in mids] or [c[0]]
+    return dict(stream='margin', method=rng.choice(['nearest', 'nearest', 'exact']), clean=rng.choice(['mask', 'none']), refhour=None,
+                prior=False, bmode=rng.choice(['ignore', 'warn', 'error']), left='none', right='none', cdtype=cdt, tz=None,
+                tunit='hours', coords=[lib.show_rat(x) for x in c], edges='none', vals=[lib.show_rat(x) for x in vals], nanq=False)
+
+
 def _t2t_case(rng):
     """the older datetime front end time2t on a file with a 'time' coordinate (minutes since a reference): ascending and
     descending axes, regular (nearest / bounds / bounds_close) or irregular (nearest) ones - also axes whose first two
@@ -246,6 +263,14 @@ def gen(rng, tier):
         if str(c.get('edges', 'none'))[:2] in ('e1', 'b2') and not c.get('prior') and rng.random() < 0.2:
             c['stale'] = True
     out += [_shortint_case(rng) for _ in range(max(4, n // 60))]
+    out += [_bigunsigned_case(rng) for _ in range(max(4, n // 60))]
+    # on every run: flag files with steps of 100 hours and more (five days, a week, a month of 31 days), both directions
+    for hours in (120, 168, 744):
+        out.append(dict(kind='flagt2t', n=rng.randint(2, 4), hours=hours, day0=rng.randint(0, 300), backward=rng.random() < 0.4,
+                        fracs=[0.25, 0.75]))
+    # on every run: time coordinates counted from dates before October 1582, no calendar attribute
+    for ref in ('0001-01-01', '1500-01-01', '1582-10-01'):
+        out.append(dict(kind='oldref', ref=ref, days=sorted(rng.sample(range(0, 12), rng.randint(2, 4)))))
     return out
 
 
@@ -321,6 +346,82 @@ def _datetimes(case):
     return out
 
 
+def _impl_oldref(case):
+    """a time coordinate counted from a date before the calendar reform, no calendar attribute (CF: the standard, mixed
+    Julian / Gregorian calendar): datetime lookups of the very dates the values encode"""
+    import datetime as dt
+    import cftime
+    import PseudoNetCDF as pnc
+    f = pnc.PseudoNetCDFFile()
+    n = len(case['days'])
+    f.createDimension('time', n)
+    v = f.createVariable('time', 'd', ('time',))
+    units = 'days since %s 00:00:00' % case['ref']
+    d0 = float(cftime.date2num(cftime.DatetimeGregorian(2001, 3, 4), units, calendar='standard'))
+    v[:] = [d0 + k for k in case['days']]
+    v.units = units
+    q = [dt.datetime(2001, 3, 4) + dt.timedelta(days=k) for k in case['days']]
+    with lib.pnc_warnings():
+        try:
+            out = {}
+            for m in ('nearest', 'exact'):
+                r = f.time2idx(q, dim='time', method=m, bounds='ignore')
+                mk = np.ma.getmaskarray(r)
+                out[m] = ['m' if mk[i] else str(int(np.ma.getdata(r)[i])) for i in range(n)]
+            return out
+        except Exception as e:
+            return dict(err=type(e).__name__, msg=str(e)[:80])
+
+
+def _oracle_oldref(case, res):
+    if 'err' in res:
+        return 'time2idx raised %s %s' % (res['err'], res.get('msg'))
+    want = [str(i) for i in range(len(case['days']))]
+    for m in ('nearest', 'exact'):
+        if res[m] != want:
+            return "time2idx(method='%s') on 'days since %s' (no calendar attribute: the standard calendar) puts the dates the values encode at %s" % (
+                m, case['ref'], res[m])
+    return None
+
+
+def _impl_flagt2t(case):
+    """time2t(ttype='bounds') on an IOAPI-like file (TFLAG variable, TSTEP attribute) whose step is 100 hours or longer
+    (a seven-digit HHHMMSS): times inside every cell, the last one included (only its closing edge comes from TSTEP)"""
+    import datetime as dt
+    import PseudoNetCDF as pnc
+    f = pnc.PseudoNetCDFFile()
+    n, hours = case['n'], case['hours']
+    f.createDimension('TSTEP', n)
+    f.createDimension('VAR', 1)
+    f.createDimension('DATE-TIME', 2)
+    tf = f.createVariable('TFLAG', 'i', ('TSTEP', 'VAR', 'DATE-TIME'))
+    t0 = dt.datetime(2001, 1, 1) + dt.timedelta(days=case['day0'])
+    sgn = -1 if case['backward'] else 1
+    ts = [t0 + sgn * dt.timedelta(hours=hours * i) for i in range(n)]
+    for i, t in enumerate(ts):
+        tf[i, 0, 0] = int(t.strftime('%Y%j'))
+        tf[i, 0, 1] = int(t.strftime('%H%M%S'))
+    f.SDATE, f.STIME, f.TSTEP = int(ts[0].strftime('%Y%j')), int(ts[0].strftime('%H%M%S')), sgn * hours * 10000
+    q = [t + sgn * dt.timedelta(hours=hours * fr) for t in ts for fr in case['fracs']]
+    with lib.pnc_warnings():
+        try:
+            r = f.time2t(q, ttype='bounds', index=True)
+        except Exception as e:
+            return dict(err=type(e).__name__, msg=str(e)[:80])
+    m = np.ma.getmaskarray(r)
+    return dict(res=['m' if m[i] else str(int(np.ma.getdata(r)[i])) for i in range(len(q))])
+
+
+def _oracle_flagt2t(case, res):
+    if 'err' in res:
+        return 'time2t raised %s %s' % (res['err'], res.get('msg'))
+    want = [str(i) for i in range(case['n']) for _ in case['fracs']]
+    if res['res'] != want:
+        return "time2t('bounds') on a flag file with TSTEP %d0000 (%s): times inside cells %s are put in cells %s" % (
+            case['hours'], 'backward' if case['backward'] else 'forward', want, res['res'])
+    return None
+
+
 def _impl_t2t(case):
     import datetime as dt
     import PseudoNetCDF as pnc
@@ -389,6 +490,10 @@ def _oracle_t2t(case, res):
 
 
 def impl(case):
+    if case.get('kind') == 'oldref':
+        return _impl_oldref(case)
+    if case.get('kind') == 'flagt2t':
+        return _impl_flagt2t(case)
     if case.get('kind') == 't2t':
         return _impl_t2t(case)
     f = _mkfile(case)
@@ -413,14 +518,14 @@ def impl(case):
 
 
 def to_line(case, res):
-    if case.get('kind') == 't2t':
+    if case.get('kind') in ('t2t', 'oldref', 'flagt2t'):
         return 'c16 nearest none none none 0,1 none 0'        # no model question: judged by the oracle
     return 'c16 %s %s %s %s %s %s %s' % (case['method'], case['clean'], case['left'], case['right'],
                                        lib.show_list(case['coords']), case['edges'], lib.show_list(case['vals']))
 
 
 def agree(case, out, res):
-    if case.get('kind') == 't2t':
+    if case.get('kind') in ('t2t', 'oldref', 'flagt2t'):
         return None
     st, kv = lib.parse_kv(out)
     toks = out.split(' ')
@@ -461,6 +566,10 @@ def _grid(case):
 
 def oracle(case, res):
     """brute-force statement of the property on the real result"""
+    if case.get('kind') == 'oldref':
+        return _oracle_oldref(case, res)
+    if case.get('kind') == 'flagt2t':
+        return _oracle_flagt2t(case, res)
     if case.get('kind') == 't2t':
         return _oracle_t2t(case, res)
     c, ed = _grid(case)
@@ -517,6 +626,10 @@ def classify(case, failure, model_out):
 
 
 def nontrivial(case, res):
+    if case.get('kind') == 'oldref':
+        return 'nearest' in res
+    if case.get('kind') == 'flagt2t':
+        return 'res' in res
     if case.get('kind') == 't2t':
         return 'res' in res and any(min(case['mins']) < q < max(case['mins']) and q not in case['mins'] for q in case['qs'])
     c, ed = _grid(case)
@@ -528,6 +641,9 @@ def distribution(recs):
     d = {}
     for r in recs:
         c = r['case']
+        if c.get('kind') in ('oldref', 'flagt2t'):
+            d[c['kind']] = d.get(c['kind'], 0) + 1
+            continue
         if c.get('kind') == 't2t':
             d['t2t=' + c['ttype']] = d.get('t2t=' + c['ttype'], 0) + 1
             continue
